@@ -20,19 +20,27 @@ def _install():
     except ValueError:
         return
 
+    state = {"new": 0}
+
+    def dump():
+        os.makedirs(_dir, exist_ok=True)
+        tmp = os.path.join(_dir, f"{os.getpid()}.tmp")
+        with open(tmp, "w") as f:
+            json.dump({k: sorted(v) for k, v in _hit.items()}, f)
+        os.replace(tmp, os.path.join(_dir, f"{os.getpid()}.json"))
+
     def on_line(code, line):
         fn = code.co_filename
         if "/cfdppy/" in fn:
             _hit.setdefault(fn, set()).add(line)
+            state["new"] += 1
+            if state["new"] % 25 == 0:      # pool workers are killed without finalizers: write as we go (each line fires once)
+                dump()
         return mon.DISABLE
 
     mon.register_callback(tool, mon.events.LINE, on_line)
     mon.set_events(tool, mon.events.LINE)
 
-    def dump():
-        os.makedirs(_dir, exist_ok=True)
-        with open(os.path.join(_dir, f"{os.getpid()}.json"), "w") as f:
-            json.dump({k: sorted(v) for k, v in _hit.items()}, f)
     atexit.register(dump)
     # worker processes of a pool end with os._exit: also dump from a multiprocessing finalizer
     try:
